@@ -70,10 +70,35 @@ type bindings struct {
 	nums  map[string]string    // slot -> decimal text
 	texts map[string]string    // slot -> text
 	dts   map[string]time.Time // slot -> UTC midnight
+
+	// the drawn part (refs.go)
+	results     map[string]map[string]*resEnt // root of the new context ("", "child", "parent") -> result name
+	fields      map[string]map[string]val     // root -> field key
+	contacts    map[string]*contactEnt        // root -> contact
+	extra       map[string]any                // webhook payload: nested maps with val leaves
+	inputTime   time.Time
+	attachments []string
+	twins       int
+	dyn         []dynRef
+	dynIdx      map[string]int
+	dynByType   map[typ][]int
 }
 
+func newBindings() *bindings {
+	return &bindings{nums: map[string]string{}, texts: map[string]string{}, dts: map[string]time.Time{},
+		results: map[string]map[string]*resEnt{}, fields: map[string]map[string]val{}, contacts: map[string]*contactEnt{},
+		extra: map[string]any{}, dynIdx: map[string]int{}, dynByType: map[typ][]int{}}
+}
+
+// genBindings draws the operands of the fixed catalogue and the per-case references.
 func genBindings(r *fw.Rand) *bindings {
-	b := &bindings{nums: map[string]string{}, texts: map[string]string{}, dts: map[string]time.Time{}}
+	b := genStaticBindings(r)
+	b.genDynamic(r)
+	return b
+}
+
+func genStaticBindings(r *fw.Rand) *bindings {
+	b := newBindings()
 	for i := 1; i <= 5; i++ {
 		b.nums[fmt.Sprintf("n%d", i)] = fw.Pick(r, numOperands)
 	}
@@ -103,7 +128,31 @@ func (b *bindings) refEnv() *refEnv {
 			e.refs[d.legacy] = val{t: tD, d: b.dts[d.slot]}
 		}
 	}
+	for _, d := range b.dyn {
+		e.refs[d.legacy] = d.v
+	}
 	return e
+}
+
+// describeFor lists the operands of the references that occur in a template.
+func (b *bindings) describeFor(src string) map[string]any {
+	m := map[string]any{}
+	low := strings.ToLower(src)
+	for k, v := range b.describe() {
+		if strings.Contains(low, k) {
+			m[k] = v
+		}
+	}
+	for _, d := range b.dyn {
+		if strings.Contains(low, d.legacy) {
+			s, _ := d.v.render()
+			if d.v.t == tD {
+				s = d.v.d.Format("2006-01-02")
+			}
+			m[d.legacy] = s
+		}
+	}
+	return m
 }
 
 func (b *bindings) describe() map[string]any {
@@ -149,41 +198,43 @@ func canonNum(s string) string {
 // buildContext is the Excellent context in which migrated templates are evaluated: every operand
 // sits where context.go's mappings send the legacy reference.
 func (b *bindings) buildContext() *types.XObject {
-	return xobj(map[string]types.XValue{
-		"contact": xobj(map[string]types.XValue{
+	top := map[string]any{
+		"contact": map[string]any{
 			"__default__": xtext(b.texts["s1"]),
 			"name":        xtext(b.texts["s1"]),
-		}),
-		"fields": xobj(map[string]types.XValue{
+		},
+		"fields": map[string]any{
 			"age":    xnum(b.nums["n1"]),
 			"nick":   xtext(b.texts["s2"]),
 			"joined": types.NewXDateTime(b.dts["d1"]),
-		}),
-		"results": xobj(map[string]types.XValue{
+		},
+		"results": map[string]any{
 			"q1":      result(canonNum(b.nums["n2"]), "Numeric", canonNum(b.nums["n2"])),
 			"color":   result(b.texts["s3"], b.texts["s4"], b.texts["s5"]),
 			"2factor": result(b.texts["s10"], "All", b.texts["s10"]),
-		}),
-		"input": xobj(map[string]types.XValue{
+		},
+		"input": map[string]any{
 			"__default__": xtext(b.texts["s6"]),
 			"text":        xtext(b.texts["s6"]),
-		}),
-		"legacy_extra": xobj(map[string]types.XValue{
+		},
+		"legacy_extra": map[string]any{
 			"n":       xnum(b.nums["n3"]),
 			"s":       xtext(b.texts["s7"]),
-			"addr":    xobj(map[string]types.XValue{"city": xtext(b.texts["s8"])}),
-			"results": xobj(map[string]types.XValue{"1": xtext(b.texts["s9"])}),
+			"addr":    map[string]any{"city": xtext(b.texts["s8"])},
+			"results": map[string]any{"1": xtext(b.texts["s9"])},
 			"d":       types.NewXDate(dates.ExtractDate(b.dts["d2"])),
-		}),
-		"child": xobj(map[string]types.XValue{
-			"results": xobj(map[string]types.XValue{"score": result(canonNum(b.nums["n4"]), "Numeric", "x")}),
-			"fields":  xobj(map[string]types.XValue{"nick": xtext(b.texts["s12"])}),
-		}),
-		"parent": xobj(map[string]types.XValue{
-			"results": xobj(map[string]types.XValue{"level": result(canonNum(b.nums["n5"]), "Numeric", "x")}),
-			"contact": xobj(map[string]types.XValue{"__default__": xtext(b.texts["s11"]), "name": xtext(b.texts["s11"])}),
-		}),
-	})
+		},
+		"child": map[string]any{
+			"results": map[string]any{"score": result(canonNum(b.nums["n4"]), "Numeric", "x")},
+			"fields":  map[string]any{"nick": xtext(b.texts["s12"])},
+		},
+		"parent": map[string]any{
+			"results": map[string]any{"level": result(canonNum(b.nums["n5"]), "Numeric", "x")},
+			"contact": map[string]any{"__default__": xtext(b.texts["s11"]), "name": xtext(b.texts["s11"])},
+		},
+	}
+	b.addDynamic(top)
+	return treeToX(top).(*types.XObject)
 }
 
 // ---------------------------------------------------------------------------------------------
@@ -365,7 +416,88 @@ var allPairs = func() []pair {
 
 type genr struct {
 	r *fw.Rand
+	b *bindings // the case's bindings (nil: only the fixed catalogue of references is used)
 }
+
+// pickRef chooses a legacy reference of type t: from the fixed catalogue or from the case's drawn references.
+func (g *genr) pickRef(t typ) *node {
+	if g.b != nil && g.r.Chance(0.55) {
+		if idx := g.b.dynByType[t]; len(idx) > 0 {
+			// drawn names (results, fields, webhook keys) are preferred to the built-in contact properties
+			for attempt := 0; attempt < 3; attempt++ {
+				d := g.b.dyn[fw.Pick(g.r, idx)]
+				if d.kind != "builtin" || attempt == 2 || g.r.Chance(0.3) {
+					return refNode(g.spellRef(d.legacy), t)
+				}
+			}
+		}
+	}
+	d := fw.Pick(g.r, refsByType[t])
+	return refNode(g.spellRef(d.legacy), t)
+}
+
+// numForm re-spells a number literal the way a person might have typed it: the legacy grammar's
+// DECIMAL is [0-9]+ ('.' [0-9]+)? and always decimal, so 007, 010, 2.0 and 02.50 are 7, 10, 2 and 2.5.
+func (g *genr) numForm(n *node) *node {
+	if !g.r.Chance(0.3) {
+		return n
+	}
+	target := n
+	if n.k == kNeg && len(n.args) == 1 && n.args[0].k == kNum {
+		target = n.args[0]
+	}
+	if target.k != kNum {
+		return n
+	}
+	target.lit = respell(target.lit, g.r.Intn(6))
+	return n
+}
+
+// respell gives one of the spellings of a canonical decimal literal.
+func respell(lit string, form int) string {
+	switch form {
+	case 0:
+		return "0" + lit
+	case 1:
+		return "00" + lit
+	case 2:
+		if strings.Contains(lit, ".") {
+			return lit + "0"
+		}
+		return lit + ".0"
+	case 3:
+		if strings.Contains(lit, ".") {
+			return lit + "00"
+		}
+		return lit + ".00"
+	case 4:
+		if strings.Contains(lit, ".") {
+			return "0" + lit + "0"
+		}
+		return "0" + lit + ".0"
+	}
+	return "000" + lit
+}
+
+// canonicalLit undoes respell: no leading zeros, no trailing fractional zeros.
+func canonicalLit(lit string) string {
+	ip, fp, hasFrac := strings.Cut(lit, ".")
+	ip = strings.TrimLeft(ip, "0")
+	if ip == "" {
+		ip = "0"
+	}
+	if hasFrac {
+		fp = strings.TrimRight(fp, "0")
+		if fp != "" {
+			return ip + "." + fp
+		}
+	}
+	return ip
+}
+
+const longWords = "one two three four five six seven eight nine ten eleven twelve thirteen"
+
+var longFieldTokens = []string{"a1", "b2", "c3", "d4", "e5", "f6", "g7", "h8", "i9", "j10", "k11", "l12", "m13"}
 
 func (g *genr) spell(name string) string {
 	switch g.r.Intn(10) {
@@ -394,63 +526,81 @@ func intLit(i int) *node {
 	return num(fmt.Sprint(i))
 }
 
+// numLeaf produces a number literal (canonically spelled) or reference that suits the hint.
+func (g *genr) numLeaf(hint string) *node {
+	r := g.r
+	switch hint {
+	case "exp":
+		return intLit(r.Range(0, 3))
+	case "places":
+		return intLit(r.Range(0, 2))
+	case "count":
+		return intLit(r.Range(0, 4))
+	case "count1":
+		return intLit(r.Range(1, 4))
+	case "index":
+		if r.Chance(0.4) {
+			return intLit(r.Range(5, 13))
+		}
+		return intLit(r.Range(1, 4))
+	case "stop":
+		switch r.Intn(8) {
+		case 0, 1:
+			return intLit(r.Range(7, 15))
+		case 2:
+			return num(fw.Pick(r, []string{"100", "65536", "2147483647"}))
+		}
+		return intLit(r.Range(3, 6))
+	case "charcode":
+		return intLit(r.Range(65, 90))
+	case "year":
+		return intLit(r.Range(1995, 2030))
+	case "month":
+		return intLit(r.Range(1, 12))
+	case "day":
+		return intLit(r.Range(1, 28))
+	case "months":
+		return intLit(r.Range(-6, 6))
+	case "fraction":
+		return num(fw.Pick(r, []string{"0.25", "0.5", "0.07", "1", "0.99", "1.2"}))
+	case "pos":
+		return num(fw.Pick(r, []string{"1", "2", "3", "4", "5", "7", "0.5", "10"}))
+	}
+	if r.Chance(0.35) {
+		return g.pickRef(tN)
+	}
+	switch r.Intn(12) {
+	case 0:
+		return num(fw.Pick(r, []string{"0.5", "1.5", "2.25", "0.1", "2.50", "10.0", "0.125"}))
+	case 1:
+		return num(fw.Pick(r, []string{"10", "12", "100", "25", "64", "1000", "12345", "99999"}))
+	case 2:
+		if hint != "nonneg" {
+			return intLit(-r.Range(1, 5))
+		}
+	}
+	return intLit(r.Range(0, 9))
+}
+
 // leaf produces a literal or a reference of type t that suits the hint.
 func (g *genr) leaf(t typ, hint string) *node {
 	r := g.r
 	switch t {
 	case tN:
-		switch hint {
-		case "exp":
-			return intLit(r.Range(0, 3))
-		case "places":
-			return intLit(r.Range(0, 2))
-		case "count":
-			return intLit(r.Range(0, 4))
-		case "count1", "index":
-			return intLit(r.Range(1, 4))
-		case "stop":
-			return intLit(r.Range(3, 6))
-		case "charcode":
-			return intLit(r.Range(65, 90))
-		case "year":
-			return intLit(r.Range(1995, 2030))
-		case "month":
-			return intLit(r.Range(1, 12))
-		case "day":
-			return intLit(r.Range(1, 28))
-		case "months":
-			return intLit(r.Range(-6, 6))
-		case "fraction":
-			return num(fw.Pick(r, []string{"0.25", "0.5", "0.07", "1", "0.99", "1.2"}))
-		case "pos":
-			return num(fw.Pick(r, []string{"1", "2", "3", "4", "5", "7", "0.5", "10"}))
-		}
-		if r.Chance(0.35) {
-			d := fw.Pick(r, refsByType[tN])
-			return refNode(g.spellRef(d.legacy), tN)
-		}
-		switch r.Intn(12) {
-		case 0:
-			return num(fw.Pick(r, []string{"0.5", "1.5", "2.25", "0.1", "2.50", "10.0", "0.125"}))
-		case 1:
-			return num(fw.Pick(r, []string{"10", "12", "100", "25"}))
-		case 2:
-			if hint != "nonneg" {
-				return intLit(-r.Range(1, 5))
-			}
-		}
-		return intLit(r.Range(0, 9))
+		return g.numForm(g.numLeaf(hint))
 	case tT:
 		switch hint {
 		case "simple":
+			if r.Chance(0.3) {
+				return str(longWords)
+			}
 			if r.Chance(0.4) {
-				d := fw.Pick(r, refsByType[tT])
-				return refNode(g.spellRef(d.legacy), tT)
+				return g.pickRef(tT)
 			}
 			return str(fw.Pick(r, simpleTexts))
 		case "fields":
 			d := fw.Pick(r, []string{",", "+", "|", ";"})
-			return str(strings.Join(fw.Pick(r, [][]string{{"15", "M", "Seattle"}, {"a", "b", "c", "d"}, {"red", "green"}, {"x1"}}), d))
+			return str(strings.Join(fw.Pick(r, [][]string{{"15", "M", "Seattle"}, {"a", "b", "c", "d"}, {"red", "green"}, {"x1"}, longFieldTokens, longFieldTokens}), d))
 		case "delim":
 			return str(fw.Pick(r, []string{",", "+", "|", ";"}))
 		case "unitD":
@@ -459,8 +609,7 @@ func (g *genr) leaf(t typ, hint string) *node {
 			return str(fmt.Sprintf("%04d-%02d-%02d", r.Range(1995, 2030), r.Range(1, 12), r.Range(1, 28)))
 		}
 		if r.Chance(0.35) {
-			d := fw.Pick(r, refsByType[tT])
-			return refNode(g.spellRef(d.legacy), tT)
+			return g.pickRef(tT)
 		}
 		return str(g.literalText(hint == "nonempty"))
 	case tB:
@@ -474,8 +623,7 @@ func (g *genr) leaf(t typ, hint string) *node {
 		return b
 	case tD:
 		if r.Chance(0.5) {
-			d := fw.Pick(r, refsByType[tD])
-			return refNode(g.spellRef(d.legacy), tD)
+			return g.pickRef(tD)
 		}
 		if r.Chance(0.25) {
 			return call(g.spell("DATEVALUE"), tD, g.leaf(tT, "isodate"))
